@@ -117,6 +117,10 @@ type zzvSQIn struct {
 
 type zzvSQInAll struct {
 	Rels []zzvSQIn `json:"rels"`
+	// holder world: the relation the whole agents are expected to follow depends on whether a peer that reconnects
+	// re-learns an unchanged route (probe); Variants[0] = it does not (seen cache blocks the replay), Variants[1] = it does
+	Probe    bool         `json:"probe"`
+	Variants [][]zzvSQIn  `json:"variants"`
 }
 
 // observable projection of one agent's flooder / tables
@@ -680,7 +684,7 @@ func zzvSQHolderRel(t *testing.T, in *zzvSQIn) {
 				w.m.StopAll()
 			}()
 			if real, want := w.project(), zzvSQHolderSpec(&in.States[path.Init], p); zzvJSON(real) != zzvJSON(want) {
-				rec = map[string]any{"rel": in.Label, "path": pi, "step": -1, "spec": want, "real": real}
+				rec = map[string]any{"world": "holder", "rel": in.Label, "path": pi, "step": -1, "spec": want, "real": real}
 				return
 			}
 			for si, stp := range path.Steps {
@@ -690,7 +694,7 @@ func zzvSQHolderRel(t *testing.T, in *zzvSQIn) {
 				steps++
 				acts[stp.A.Act]++
 				if zzvJSON(real) != zzvJSON(want) || zzvJSON(obs["sent"]) != zzvJSON(wsent) || obs["queued_state_frames"] != wq || problem != "" {
-					rec = map[string]any{"rel": in.Label, "path": pi, "step": si, "a": stp.A, "spec": want, "real": real, "obs": obs,
+					rec = map[string]any{"world": "holder", "rel": in.Label, "path": pi, "step": si, "a": stp.A, "spec": want, "real": real, "obs": obs,
 						"spec_sent": wsent, "spec_queued_state_frames": wq, "problem": problem}
 					return
 				}
@@ -708,9 +712,44 @@ func zzvSQHolderRel(t *testing.T, in *zzvSQIn) {
 		"acts": acts, "wall_ms": time.Since(t0).Milliseconds()})
 }
 
+// zzvSQProbe: does a peer that reconnects re-learn a route whose origin did not announce again?
+// Live adv(o, 1) - PeerSleeps - PeerPolls on real agents; returns S's stored sequence for o after the resync.
+func zzvSQProbe(t *testing.T, in *zzvSQIn) (relearned bool) {
+	t.Run("probe", func(t *testing.T) {
+		w := zzvSQNewHolder(t, in, zzvSQMaxSeq(in))
+		defer func() {
+			w.endPoll()
+			w.m.StopAll()
+		}()
+		o := in.Origins[len(in.Origins)-1]
+		w.step(zzvSQAct{Act: "Live", F: &zzvSQFrame{"adv", o, 1}})
+		if w.n.observe(w.s.A, 2).Tab[o] != 1 {
+			t.Fatal("zzv: probe: S did not learn the live route")
+		}
+		w.step(zzvSQAct{Act: "PeerSleeps"})
+		dropped := w.n.observe(w.s.A, 2).Tab[o] == 0
+		obs, _ := w.step(zzvSQAct{Act: "PeerPolls"})
+		relearned = w.n.observe(w.s.A, 2).Tab[o] == 1
+		zzvEmit("probe", map[string]any{"dropped_on_disconnect": dropped, "replayed": obs["sent"], "relearned": relearned})
+	})
+	if t.Failed() {
+		t.Fatal("zzv: probe aborted")
+	}
+	return
+}
+
 func TestZZVSQHolder(t *testing.T) {
 	var all zzvSQInAll
 	zzvLoad(t, "ZZV_IN_HOLDER", &all)
+	if all.Probe && len(all.Variants) == 2 && len(all.Variants[0]) > 0 {
+		v := 0
+		if zzvSQProbe(t, &all.Variants[0][0]) {
+			v = 1
+		}
+		for i := range all.Variants[v] {
+			zzvSQHolderRel(t, &all.Variants[v][i])
+		}
+	}
 	for i := range all.Rels {
 		zzvSQHolderRel(t, &all.Rels[i])
 	}
@@ -866,7 +905,7 @@ func zzvSQReceiverRel(t *testing.T, in *zzvSQIn) {
 			w := zzvSQNewReceiver(t, in, maxSeq)
 			defer w.m.StopAll()
 			if real, want := w.project(), zzvSQReceiverSpec(&in.States[path.Init], p); zzvJSON(real) != zzvJSON(want) {
-				rec = map[string]any{"rel": in.Label, "path": pi, "step": -1, "spec": want, "real": real}
+				rec = map[string]any{"world": "receiver", "rel": in.Label, "path": pi, "step": -1, "spec": want, "real": real}
 				return
 			}
 			for si, stp := range path.Steps {
@@ -912,7 +951,7 @@ func zzvSQReceiverRel(t *testing.T, in *zzvSQIn) {
 					}
 				}
 				if bad {
-					rec = map[string]any{"rel": in.Label, "path": pi, "step": si, "a": stp.A, "spec": want, "real": real, "obs": obs,
+					rec = map[string]any{"world": "receiver", "rel": in.Label, "path": pi, "step": si, "a": stp.A, "spec": want, "real": real, "obs": obs,
 						"problem": problem}
 					return
 				}
